@@ -4,6 +4,7 @@ import (
 	"bytes"
 	"fmt"
 	"reflect"
+	"runtime"
 	"strings"
 	"testing/iotest"
 	"time"
@@ -140,6 +141,18 @@ func ladderFamilies() []ladderFam {
 		ladderFam{"N bytes then a truncated \\u", func(n int) string { return `"` + strings.Repeat("a", n) + `\u12` }, "string"},
 		ladderFam{"N bytes then a lone high surrogate", func(n int) string { return `"` + strings.Repeat("a", n) + `\ud83d"` }, "string"},
 	)
+	// texts of EXACTLY N bytes that end in the middle of a token: a scanner that compares or slices ahead of the
+	// cursor meets the end of its working copy, whose capacity is what earlier calls left in a pool ("fresh:"
+	// families are run on freshly collected pools, where that capacity is the initial one)
+	for _, tail := range []string{"t", "tr", "tru", "f", "fa", "fals", "n", "nu", "nul", `"ab`, `"a\\`, `"\\u00`, "-", "1e", "1.", "[1,", `{"a":`, `{"a"`} {
+		tail := tail
+		fams = append(fams, ladderFam{"fresh: array text of exactly N bytes ending in " + tail, func(n int) string {
+			if n < len(tail)+1 {
+				return "[" + tail
+			}
+			return "[" + strings.Repeat(" ", n-len(tail)-1) + tail
+		}, "[]interface{}"})
+	}
 	// N sibling containers (closed one after the other, never nested): a depth counter that drifts by one per
 	// sibling reaches the nesting limit of 10000 on a flat document. These families have their own ladder.
 	sib := func(open, inner, close string) func(n int) string {
@@ -222,6 +235,9 @@ func lengthLadders(c *work.Ctx, mode int) {
 			b := []byte(doc)
 			if !c.BeginS(fmt.Sprintf("%s, N=%d", f.name, n)) {
 				continue
+			}
+			if strings.HasPrefix(f.name, "fresh:") {
+				ladderFreshPools()
 			}
 			buf := bufferOutcome(b, d.t, d.num)
 			whole := streamOutcome(bytes.NewReader(b), d.t, d.num)
@@ -339,4 +355,10 @@ func ladderBucket(n int) string {
 		return "N 1020..2039"
 	}
 	return "N from 2040"
+}
+
+// ladderFreshPools empties every sync.Pool of the process (two collections: the victim cache survives one).
+func ladderFreshPools() {
+	runtime.GC()
+	runtime.GC()
 }
